@@ -33,6 +33,7 @@ import (
 	acracensor "github.com/cossacklabs/acra/acra-censor"
 	"github.com/cossacklabs/acra/decryptor/base"
 	base_mysql "github.com/cossacklabs/acra/decryptor/mysql/base"
+	encryptor "github.com/cossacklabs/acra/encryptor/base"
 	"github.com/cossacklabs/acra/encryptor/mysql"
 	"github.com/cossacklabs/acra/keystore/filesystem"
 	"github.com/cossacklabs/acra/logging"
@@ -426,6 +427,9 @@ func (handler *Handler) ProxyClientConnection(ctx context.Context, errCh chan<- 
 				handler.setQueryHandler(handler.QueryResponseHandler)
 			case CommandStatementPrepare:
 				handler.protocolState.SetPendingParse(queryObj)
+				// the column settings found for this statement are registered with it (PreparedStatementResponseHandler)
+				// and put back in force by every COM_STMT_EXECUTE of it
+				handler.protocolState.SetPendingQuerySettings(handler.currentQuerySettings())
 				handler.protocolState.SetStmtID(0)
 				handler.setQueryHandler(handler.PreparedStatementResponseHandler)
 			}
@@ -509,6 +513,7 @@ func (handler *Handler) handleStatementExecute(ctx context.Context, packet *Pack
 			handler.logger.WithError(err).Error("Can't parse sqlparser statement")
 			return 0, err
 		}
+		handler.restoreQuerySettings(handler.protocolState.PendingQuerySettings())
 
 		// during mariadb_stmt_execute_direct param_count is not known, we manually calculate it via sqlparser
 		paramsNumber, err = getParamsCount(statement)
@@ -528,6 +533,11 @@ func (handler *Handler) handleStatementExecute(ctx context.Context, packet *Pack
 		preparedStmt := stmtItem.Statement()
 		paramsNumber = preparedStmt.ParamsNum()
 		statement = preparedStmt.Query()
+		// The rows that follow are rows of THIS statement. The column settings in force are those of the statement
+		// analysed last (the last accepted COM_QUERY / COM_STMT_PREPARE), which is another statement as soon as the
+		// client prepares two statements before it executes the first one: its rows were then decoded with the other
+		// statement's settings (wrong default values, type conversion and masking of another column, or none).
+		handler.restoreQuerySettings(stmtItem.QuerySettings())
 	}
 
 	// https://dev.mysql.com/doc/dev/mysql-server/latest/page_protocol_com_stmt_execute.html
@@ -920,7 +930,7 @@ func (handler *Handler) PreparedStatementResponseHandler(ctx context.Context, pa
 	}
 
 	preparedStmt := NewPreparedStatement(response.StatementID, response.ParamsNum, queryObj.Query(), statement)
-	handler.registry.AddStatement(NewPreparedStatementItem(preparedStmt, nil))
+	handler.registry.AddStatement(NewPreparedStatementItem(preparedStmt, handler.protocolState.PendingQuerySettings()))
 
 	// choose the handler of the next database packet BEFORE the answer is written to the client: after the
 	// write the client may send its next command and ProxyClientConnection may install that command's
@@ -1053,6 +1063,26 @@ func (handler *Handler) ProxyDatabaseConnection(ctx context.Context, errCh chan<
 				return
 			}
 		}
+	}
+}
+
+// querySettingsKeeper is implemented by a query observer manager that can hand out and put back the column
+// settings its observers collected for the statement analysed last
+type querySettingsKeeper interface {
+	QueryEncryptionSettings() []*encryptor.QueryDataItem
+	SetQueryEncryptionSettings([]*encryptor.QueryDataItem)
+}
+
+func (handler *Handler) currentQuerySettings() []*encryptor.QueryDataItem {
+	if keeper, ok := handler.queryObserverManager.(querySettingsKeeper); ok {
+		return keeper.QueryEncryptionSettings()
+	}
+	return nil
+}
+
+func (handler *Handler) restoreQuerySettings(items []*encryptor.QueryDataItem) {
+	if keeper, ok := handler.queryObserverManager.(querySettingsKeeper); ok {
+		keeper.SetQueryEncryptionSettings(items)
 	}
 }
 
